@@ -65,7 +65,10 @@ def render_source(d) -> Tuple[str, str]:
     emod = d["module"] + "_e"
     esrc = ["import enum", ""]
     for e in d["enums"]:
-        esrc += [f"class {e}(enum.Enum):", "    R = 1", "    G = 2", ""]
+        if e in d.get("str_enums", []):     # an Enum that mixes in str (class Mode(str, Enum)): still an Enum column
+            esrc += [f"class {e}(str, enum.Enum):", "    R = 'r'", "    G = 'g'", ""]
+        else:
+            esrc += [f"class {e}(enum.Enum):", "    R = 1", "    G = 2", ""]
     lines = ["from __future__ import annotations", "from dataclasses import dataclass, field", "from datetime import datetime",
              "from typing import List, Optional, Set"]
     if d["enums"]:
@@ -86,7 +89,7 @@ def render_source(d) -> Tuple[str, str]:
 
 
 def case_key(d) -> str:
-    return json.dumps({k: d[k] for k in ("enums", "classes", "order")}, sort_keys=True)
+    return json.dumps({k: d.get(k) for k in ("enums", "str_enums", "classes", "order")}, sort_keys=True)
 
 
 def case_dir(d) -> Path:
@@ -541,6 +544,8 @@ def shape_stats(d) -> Dict[str, int]:
                 inc({"plain": "scalar", "opt": "opt_scalar", "list": "json_list", "set": "json_set"}[f["shape"]] + ("_datetime" if n == "datetime" else ""))
             elif k == "e":
                 inc("enum" if f["shape"] == "plain" else "opt_enum")
+                if n in d.get("str_enums", []):
+                    inc("str_mixin_enum")
             else:
                 if f["shape"] in ("list", "set"):
                     inc("coll")
@@ -641,6 +646,8 @@ def gen_model(rng, idx: int, allow_k: bool) -> dict:
             c["base"] = mix["name"]
             classes.insert(classes.index(c), mix)
     d = {"module": f"c06m_{idx}", "enums": enums, "classes": classes}
+    if "Mode" in enums and rng.chance(0.6):
+        d["str_enums"] = ["Mode"]
     if not allow_k:
         # keep the model inside F: no x/x_id aliasing (models without any builtin scalar are inside F since b804898)
         for c in classes:
@@ -886,8 +893,134 @@ def load_corpus() -> List[Tuple[str, dict]]:
     cdir = core.VERIF / "corpus" / PROP
     if cdir.is_dir():
         for f in sorted(cdir.glob("*.json")):
-            out.append((f.name, json.loads(f.read_text())))
+            j = json.loads(f.read_text())
+            if "scenario" not in j:
+                out.append((f.name, j))
     return out
+
+
+# ------------------------------------------------------------------------------------------------
+# free-form scenarios: model shapes outside the Coq grammar (nested classes, namesake classes in two modules, PEP 604
+# optionals, inheritance_strategy=SINGLE).  A scenario carries its source files; the implementation is run on it in a
+# fresh subprocess and the outcome is compared with an independent reading of the dataclasses (one DAO per class, an
+# attribute for every own public field).  For an open finding the recorded defect behaviour (stage, error type) must match.
+# ------------------------------------------------------------------------------------------------
+def load_scenarios() -> List[Tuple[str, dict]]:
+    from . import core
+    out = []
+    cdir = core.VERIF / "corpus" / PROP
+    if cdir.is_dir():
+        for f in sorted(cdir.glob("*.json")):
+            j = json.loads(f.read_text())
+            if "scenario" in j:
+                out.append((f.name, j))
+    return out
+
+
+def scenario_main(argv) -> int:
+    """python -m harness.c06 --scenario <dir>"""
+    import importlib
+    import dataclasses
+    import typing
+    d_dir = argv[0]
+    sys.path.insert(0, d_dir)
+    sc = json.load(open(os.path.join(d_dir, "scenario.json")))
+    out: Dict[str, Any] = {"stage": "start"}
+    try:
+        from krrood.class_diagrams.class_diagram import ClassDiagram
+        from krrood.ormatic.ormatic import ORMatic
+        from krrood.ormatic.utils import InheritanceStrategy
+        classes = []
+        for q in sc["classes"]:
+            mod, *path = q.split(".")
+            obj = importlib.import_module(mod)
+            for part in path:
+                obj = getattr(obj, part)
+            classes.append(obj)
+        out["stage"] = "diagram"
+        cd = ClassDiagram(list(classes))
+        out["stage"] = "ormatic"
+        o = ORMatic(cd, inheritance_strategy=getattr(InheritanceStrategy, sc.get("strategy", "JOINED")))
+        o.make_all_tables()
+        out["stage"] = "render"
+        path = os.path.join(d_dir, "scn_iface.py")
+        with open(path, "w") as f:
+            o.to_sqlalchemy_file(f)
+        out["stage"] = "import"
+        im = importlib.import_module("scn_iface")
+        from sqlalchemy.orm import configure_mappers
+        out["stage"] = "configure"
+        configure_mappers()
+        from sqlalchemy import create_engine
+        out["stage"] = "create_all"
+        im.Base.metadata.create_all(create_engine("sqlite:///:memory:"))
+        out["stage"] = "inspect"
+        # independent reading: one DAO per distinct class; every own public field has a mapped attribute on it
+        problems = []
+        mappers = list(im.Base.registry.mappers)
+        by_cls = {}
+        for m in mappers:
+            by_cls.setdefault(m.class_.original_class(), []).append(m)
+        for c in dict.fromkeys(classes):
+            ms = by_cls.get(c, [])
+            if len(ms) != 1:
+                problems.append(f"{c.__module__}.{c.__qualname__}: {len(ms)} DAO classes")
+                continue
+            inherited = {f.name for b in c.__mro__[1:] if dataclasses.is_dataclass(b) for f in dataclasses.fields(b)}
+            for f in dataclasses.fields(c):
+                if f.name.startswith("_") or f.name in inherited:
+                    continue
+                if f.name not in ms[0].attrs.keys():
+                    problems.append(f"{c.__qualname__}.{f.name}: no mapped attribute")
+        out["problems"] = problems
+        out["stage"] = "ok"
+    except BaseException as ex:  # noqa
+        out["error_type"] = type(ex).__name__
+        out["error"] = str(ex)[:300].replace("\n", " ")
+    print("RESULT " + json.dumps(out))
+    return 0
+
+
+def run_scenario(name: str, sc: dict) -> dict:
+    from . import core
+    cd = core.WORK / PROP / RUN_TAG / ("scn_" + name.replace(".json", ""))
+    if cd.exists():
+        shutil.rmtree(cd)
+    cd.mkdir(parents=True)
+    for fn, text in sc["files"].items():
+        (cd / fn).write_text(text)
+    (cd / "scenario.json").write_text(json.dumps(sc))
+    env = dict(core.IMPL_ENV, PYTHONDONTWRITEBYTECODE="1")
+    try:
+        p = subprocess.run([core.PY, "-m", "harness.c06", "--scenario", str(cd)], stdout=subprocess.PIPE, stderr=subprocess.PIPE,
+                           text=True, env=env, timeout=300, cwd=str(core.VERIF))
+    except subprocess.TimeoutExpired:
+        return {"stage": "timeout"}
+    lines = [l for l in p.stdout.splitlines() if l.startswith("RESULT ")]
+    return json.loads(lines[-1][7:]) if lines else {"stage": "crash", "error": (p.stderr or p.stdout)[-300:]}
+
+
+def judge_scenarios(rep, findings) -> None:
+    for name, sc in load_scenarios():
+        res = run_scenario(name, sc)
+        rep.count("scenario:" + name, True)
+        good = res.get("stage") == "ok" and not res.get("problems")
+        fnd = [f for f in findings if f.witness.endswith("/" + name)]
+        if fnd and fnd[0].kind == "open":
+            exp = sc.get("recorded", {})
+            if good:
+                rep.note(f"known finding {fnd[0].fid} no longer reproduces on its witness {name}")
+            elif res.get("stage") == exp.get("stage") and res.get("error_type") == exp.get("error_type"):
+                rep.known(fnd[0])
+            else:
+                rep.violation({"kind": "counterexample", "scenario": name, "case": sc, "impl": res, "recorded": exp,
+                               "python": f"from harness import c06, json; print(c06.run_scenario({name!r}, json.load(open('/verif/corpus/C06/{name}'))))",
+                               "explanation": "the scenario fails differently from the recorded defect behaviour of its known finding"})
+        elif not good:
+            rep.violation({"kind": "counterexample", "scenario": name, "case": sc, "impl": res,
+                           "python": f"from harness import c06, json; print(c06.run_scenario({name!r}, json.load(open('/verif/corpus/C06/{name}'))))",
+                           "explanation": "expected: the generated layer imports, configures, creates its schema, has exactly one DAO per class and a "
+                                          "mapped attribute for every own public field"})
 
 
 def run(tier: str, seed: int, replay=None) -> int:
@@ -928,6 +1061,20 @@ def run(tier: str, seed: int, replay=None) -> int:
     findings_seen: Dict[str, int] = {}
     findings = core.load_findings(PROP)
     t0 = time.time()
+    if replay is not None and "scenario" in replay.get("case", {}):
+        res = run_scenario(replay.get("scenario", "replay.json"), replay["case"])
+        rep.count("scenario-replay", True)
+        exp = replay["case"].get("recorded")
+        if res.get("stage") == "ok" and not res.get("problems"):
+            rep.note("replay: ok")
+        elif exp and res.get("stage") == exp.get("stage") and res.get("error_type") == exp.get("error_type") and \
+                any(f.kind == "open" and f.witness.endswith("/" + replay.get("scenario", "")) for f in findings):
+            for f in findings:
+                if f.kind == "open" and f.witness.endswith("/" + replay.get("scenario", "")):
+                    rep.known(f)
+        else:
+            rep.violation({"kind": "counterexample", "scenario": replay.get("scenario"), "case": replay["case"], "impl": res})
+        return rep.finish()
     if replay is not None:
         recs = evaluate(rep, [replay["case"]], model_ok, "replay", 1.0, rng.fork(9))
         lab = judge(rep, recs[0], model_ok, findings_seen)
@@ -962,6 +1109,7 @@ def run(tier: str, seed: int, replay=None) -> int:
                                    "explanation": f"corpus case {name} is expected to pass but fails ({lab})"})
             judge_repeat(rep, rec)
             rep.count(case_key(d), True)
+    judge_scenarios(rep, findings)
     # 2. generated models
     n = {"quick": 56, "thorough": 640}[tier]
     n_k = max(4, n // 8)
@@ -1002,3 +1150,5 @@ def run(tier: str, seed: int, replay=None) -> int:
 
 if __name__ == "__main__" and len(sys.argv) > 1 and sys.argv[1] == "--run":
     sys.exit(runner_main(sys.argv[2:]))
+if __name__ == "__main__" and len(sys.argv) > 1 and sys.argv[1] == "--scenario":
+    sys.exit(scenario_main(sys.argv[2:]))
